@@ -91,6 +91,14 @@ CLAIMS = {
  "C14": claim("interval(): every step resumes at previous tick + period, yields the current time, suspends at least once, and raises "
               "IntervalExceeded exactly when the body was late; delay(): every step pauses exactly period after the body; negative "
               "periods raise ValueError.", "Float drift is outside (reals).", "5/C14"),
+ "C16": claim("collect(): one result per activity in argument order, each the stored outcome of the task that ran that activity, after the scope "
+              "block has ended (all children done: Scope.__aexit__); first(): ValueError exactly when count exceeds the number of "
+              "activities, never more than count (all, for None) results are handed out, after the count-th result no further one is "
+              "requested and the still running (volatile) monitors are aborted by the scope exit; both are proved against the contracts of "
+              "Scope/Task/Queue, which the check includes.",
+              "Assumed: asyncstdlib.islice (first n items, no further request after the n-th), the private result queue is not touched by "
+              "the consumer of first(); the order/time at which results become available is Queue/Task semantics (C10/C06), not restated.",
+              "5/C16"),
  "C17": claim("_subclasscheck_specialisation is proved equal to the Match predicate of the property for all tuples and any subclass "
               "relation; __subclasscheck__/__instancecheck__ dispatch and agree.",
               "Not under contract: __getitem__/_get_specialisation (cache identity), flattened(), Concurrent.__new__; the `except` clause "
@@ -121,7 +129,6 @@ NA = {
  "C02": "only partly expressible as contracts: FIFO per date and back-end independence are proved (WaitQueue refinement, Loop.schedule, __awake_all__ order) and serve C01; independence of hash seed / memory layout needs whole-program scans for set/WeakSet/id() ordered iteration (Tracked._listeners is such a WeakSet) that this family does not provide",
  "C12": "Resources/Tracked and the exec-generated ResourceLevels operators are not under contract yet",
  "C15": "Loop._run_events (quiescence, root order via Loop.__init__) is proved and reported under C01; Loop.run/StateHandler.assign (restoring the enclosing simulation), ActivityLeak reporting and usim.run(till=) are not under contract, and thread isolation rests on threading.local, outside this family",
- "C16": "collect/first need `async for` over asyncstdlib.islice (external) and the Scope/Queue contracts composed; not built yet",
  "C18": "the SimPy compatibility layer (usim.py.events/core) is not under contract yet",
  "C19": "the SimPy resources (usim.py.resources) are not under contract yet",
 }
